@@ -423,6 +423,9 @@ impl Assembler {
 		if val_bytes[1] > 0 {
 			end = 2;
         }
+		if val_bytes[2] > 0 {
+			end = 3;
+        }
 
         // Modify `beg..end` based on operand suffix, forcing absolute or long addressing.
         // This must precede the prefix handling.
